@@ -16,6 +16,10 @@ type G struct {
 	r    *hx.Rng
 	tier string
 	pool map[string][]string // alg -> key materials (kept small so key objects are cached)
+	// lines that accompany the line a generator returns (text PRODUCED BY TINK at
+	// generation time, handed to the model parser: the token of an E case as a V
+	// line, the exported JWK set text of an X case as an I line)
+	extra []string
 }
 
 var macAlgs = []string{"HS256", "HS384", "HS512"}
@@ -899,6 +903,12 @@ func (g *G) encodeCase() string {
 			tag = "enc-invalid-utf8-kid"
 		}
 	}
+	// the token the real encoder makes of this case, as a V line: its header and
+	// payload bytes (protojson's Marshal output) go through the MODEL parser and
+	// are compared with structpb's parse of the same bytes
+	if tok, err := g.tinkSign(d, c); err == nil {
+		g.extra = append(g.extra, lineV("V", prim(mac), []kd{d}, o, tok, "etok-"+tag))
+	}
 	return lineE(prim(mac), d, c, o, tag)
 }
 
@@ -1047,6 +1057,8 @@ func gen(r *hx.Rng, n int, tier string) []string {
 		default:
 			out = append(out, g.honest("J"))
 		}
+		out = append(out, g.extra...)
+		g.extra = nil
 	}
 	return out
 }
